@@ -11,7 +11,7 @@ use crate::val::Val;
 
 pub const ID: &str = "C15";
 
-pub const RULE: &str = "cases = (grammar, input). Families with generated parameters: length-prefixed (digit.ignore_with_ctx / then_with_ctx(item.repeated().configure(|c, n| c.exactly(n)).collect()), nested two levels, also at_most(n) and try_configure(Err on odd n)), delimiter-echo (open.then_with_ctx(body.then(just(..).configure(|c, ctx| c.seq(ctx)))), raw-string-like), indentation-like (with_ctx inside repeated inside with_ctx, map_ctx in between), each on every string over a 4-symbol alphabet up to length L; plus random C01/C02-class grammars with providers (with_ctx(v), ignore_with_ctx, then_with_ctx, map_ctx(f)) and consumers (map_with(ctx), just.configure(seq = ctx), repeated().configure(exactly / at_most from ctx), try_configure(Err on odd)) inserted at random nodes (providers nested up to 3 deep, inside repetitions, choices, lookahead, recursion). Oracles: (1) the reference threads an explicit context value: a consumer sees the value of the nearest enclosing provider on the current path for this very attempt; configured parsers behave as the statically configured parser with the same settings; a try_configure error is a failure of that parser at its position; compared on acceptance, output (which embeds every observed context) and the final error position; (2) metamorphic, reference-free: wherever the nearest provider of a consumer is a with_ctx(constant) (through map_ctx), replacing the consumer by its static equivalent (just(v), repeated().exactly(n) / at_most(n)) must not change acceptance or output. NON-TRIVIAL = two DIFFERENT context values reached the same consumer node within one parse (the only situation in which a stale context is observable), or a try_configure error occurred; distinct = distinct (sub-check, grammar, input).";
+pub const RULE: &str = "cases = (grammar, input). Families with generated parameters: length-prefixed (digit.ignore_with_ctx / then_with_ctx(item.repeated().configure(|c, n| c.exactly(n)).collect()), nested two levels, also at_most(n) and try_configure(Err on odd n)), delimiter-echo (open.then_with_ctx(body.then(just(..).configure(|c, ctx| c.seq(ctx)))), raw-string-like), indentation-like (with_ctx inside repeated inside with_ctx, map_ctx in between), each on every string over a 4-symbol alphabet up to length L; plus random C01/C02-class grammars with providers (with_ctx(v), ignore_with_ctx, then_with_ctx, map_ctx(f)) and consumers (map_with(ctx), just.configure(seq = ctx), repeated().configure(exactly / at_most from ctx), try_configure(Err on odd)) inserted at random nodes (providers nested up to 3 deep, inside repetitions, choices, lookahead, recursion). Oracles: (1) the reference threads an explicit context value: a consumer sees the value of the nearest enclosing provider on the current path for this very attempt; configured parsers behave as the statically configured parser with the same settings; a try_configure error is a failure of that parser at its position; compared on acceptance, output (which embeds every observed context) and the final error position; (2) metamorphic, reference-free: wherever the nearest provider of a consumer is a with_ctx(constant) (through map_ctx), replacing the consumer by its static equivalent (just(v), repeated().exactly(n) / at_most(n)) must not change acceptance or output. A statically typed family compares run-time configuration with the statically configured parser for every (at_least, at_most) pair in 0..3 (also at_least > at_most), both setter orders, configure / try_configure, zero-sized and data-carrying contexts, collected and used directly, and configuration through a reference, on every string over {a b} up to length 6 / 8. NON-TRIVIAL = two DIFFERENT context values reached the same consumer node within one parse (the only situation in which a stale context is observable), or a try_configure error occurred; distinct = distinct (sub-check, grammar, input).";
 
 pub const ASSUMPTIONS: &[&str] = &[
     "reference semantics: context = value of the nearest enclosing provider on the current path; a repetition configured from context uses the context visible where the repetition starts",
@@ -188,6 +188,16 @@ pub fn check_case(case: &Case, l: &mut Local) -> Result<(), Fail> {
         }
         return Ok(());
     }
+    if case.sub == "static-cfg" {
+        let want = case.extra.get("template").and_then(|x| x.as_str()).unwrap_or("");
+        for (name, configured, stat) in cfg_static_family(&case.input) {
+            l.evals += 4;
+            if name == want && configured != stat {
+                return Err(Fail::new("C15/configured-vs-static", format!("{}: configured: {} -- statically configured: {}", name, configured, stat)));
+            }
+        }
+        return Ok(());
+    }
     check_inner(&case.sub, &case.g, &case.toks(), l).map_err(|(_, f)| f)
 }
 
@@ -313,6 +323,147 @@ pub fn iter_provider_family(s: &str) -> Vec<(&'static str, String, String)> {
     acc
 }
 
+
+// ---- run-time configuration vs the statically configured parser (statically typed) ----
+//
+// "A parser configured from context matches exactly as the statically configured parser with those settings would":
+// every (at_least, at_most) pair -- also at_least > at_most, where the two must still agree with EACH OTHER -- set
+// through configure / try_configure in both setter orders, under a zero-sized context (the top-level `()`, with_ctx(()),
+// a unit header), under a data-carrying context, collected and used directly as a parser; and configurable parsers
+// that are configured THROUGH A REFERENCE (`(&p).configure(..)`).
+
+/// (name, configured result, static result) rendered for parse and check
+pub fn cfg_static_family(s: &str) -> Vec<(String, String, String)> {
+    use chumsky::prelude::*;
+    use chumsky::{ConfigIterParser, ConfigParser};
+    type E0<'a> = extra::Err<Rich<'a, char>>;
+    type EP<'a> = extra::Full<Rich<'a, char>, (), (usize, usize)>;
+    type EC<'a> = extra::Full<Rich<'a, char>, (), char>;
+    fn show<T: std::fmt::Debug>(r: ParseResult<T, Rich<'_, char>>) -> String {
+        let (o, e) = r.into_output_errors();
+        format!("{:?} / {:?}", o, e.iter().map(|e| format!("{:?}@{:?}", e.reason(), e.span())).collect::<Vec<_>>())
+    }
+    macro_rules! both {
+        ($name:expr, $cfg:expr, $stat:expr, $acc:ident) => {{
+            let (pc, ps) = ($cfg, $stat);
+            let a = format!("parse: {} | check: {:?}", show(pc.parse(s)), { let r = pc.check(s); let n = r.errors().len(); (r.has_output(), n) });
+            let b = format!("parse: {} | check: {:?}", show(ps.parse(s)), { let r = ps.check(s); let n = r.errors().len(); (r.has_output(), n) });
+            $acc.push(($name, a, b));
+        }};
+    }
+    let rest = || any::<&str, E0>().repeated().collect::<String>();
+    let mut acc: Vec<(String, String, String)> = vec![];
+    for lo in 0..=3usize {
+        for hi in [None, Some(0usize), Some(1), Some(2), Some(3)] {
+            let stat = || {
+                let r = just::<_, &str, E0>('a').repeated().at_least(lo);
+                match hi {
+                    Some(h) => r.at_most(h),
+                    None => r,
+                }
+            };
+            let tag = format!("at_least({}) at_most({:?})", lo, hi);
+            // zero-sized context, lower bound first / upper bound first
+            let c1 = || {
+                just::<_, &str, E0>('a').repeated().configure(move |c, _: &()| {
+                    let c = c.at_least(lo);
+                    match hi {
+                        Some(h) => c.at_most(h),
+                        None => c,
+                    }
+                })
+            };
+            let c2 = || {
+                just::<_, &str, E0>('a').repeated().configure(move |c, _: &()| {
+                    let c = match hi {
+                        Some(h) => c.at_most(h),
+                        None => c,
+                    };
+                    c.at_least(lo)
+                })
+            };
+            both!(format!("() context, configure {} collected", tag), c1().collect::<Vec<char>>().then(rest()), stat().collect::<Vec<char>>().then(rest()), acc);
+            both!(format!("() context, configure {} (upper bound set first) collected", tag), c2().collect::<Vec<char>>().then(rest()), stat().collect::<Vec<char>>().then(rest()), acc);
+            both!(format!("() context, configure {} used directly", tag), c1().to_slice().then(rest()), stat().to_slice().then(rest()), acc);
+            both!(format!("with_ctx(()) configure {} count", tag), c2().count().with_ctx(()).then(rest()), stat().count().then(rest()), acc);
+            both!(
+                format!("unit header .ignore_with_ctx(configure {})", tag),
+                just::<_, &str, E0>('a').rewind().or_not().ignored().ignore_with_ctx(c1().collect::<Vec<char>>()).then(rest()),
+                stat().collect::<Vec<char>>().then(rest()),
+                acc
+            );
+            let c3 = || {
+                just::<_, &str, E0>('a').repeated().try_configure(move |c, _: &(), _span| {
+                    let c = c.at_least(lo);
+                    Ok(match hi {
+                        Some(h) => c.at_most(h),
+                        None => c,
+                    })
+                })
+            };
+            both!(format!("() context, try_configure {} collected", tag), c3().collect::<Vec<char>>().then(rest()), stat().collect::<Vec<char>>().then(rest()), acc);
+            if let Some(h) = hi {
+                // data-carrying context
+                let c4 = || just::<_, &str, EP>('a').repeated().configure(|c, b: &(usize, usize)| c.at_most(b.1).at_least(b.0));
+                both!(format!("with_ctx(({}, {})) configure both bounds collected", lo, h), c4().collect::<Vec<char>>().with_ctx((lo, h)).then(rest()), stat().collect::<Vec<char>>().then(rest()), acc);
+                both!(format!("with_ctx(({}, {})) configure both bounds used directly", lo, h), c4().to_slice().with_ctx((lo, h)).then(rest()), stat().to_slice().then(rest()), acc);
+            }
+        }
+        // exactly(n) under the zero-sized context
+        let ce = || just::<_, &str, E0>('a').repeated().configure(move |c, _: &()| c.exactly(lo));
+        both!(format!("() context, configure exactly({}) collected", lo), ce().collect::<Vec<char>>().then(rest()), just::<_, &str, E0>('a').repeated().exactly(lo).collect::<Vec<char>>().then(rest()), acc);
+    }
+    acc.extend(byref_cfg_family(s));
+    acc
+}
+
+
+/// a configurable parser configured THROUGH A REFERENCE: `(&p).configure(..)` must behave as `p.configure(..)`
+/// (name, by-reference result, by-value result), parse and check, collected and in value-free positions
+pub fn byref_cfg_family(s: &str) -> Vec<(String, String, String)> {
+    use chumsky::prelude::*;
+    use chumsky::{ConfigIterParser, ConfigParser};
+    type E0<'a> = extra::Err<Rich<'a, char>>;
+    type EP<'a> = extra::Full<Rich<'a, char>, (), (usize, usize)>;
+    type EC<'a> = extra::Full<Rich<'a, char>, (), char>;
+    fn show<T: std::fmt::Debug>(r: ParseResult<T, Rich<'_, char>>) -> String {
+        let (o, e) = r.into_output_errors();
+        format!("{:?} / {:?}", o, e.iter().map(|e| format!("{:?}@{:?}", e.reason(), e.span())).collect::<Vec<_>>())
+    }
+    macro_rules! both {
+        ($name:expr, $cfg:expr, $stat:expr, $acc:ident) => {{
+            let (pc, ps) = ($cfg, $stat);
+            let a = format!("parse: {} | check: {:?}", show(pc.parse(s)), { let r = pc.check(s); let n = r.errors().len(); (r.has_output(), n) });
+            let b = format!("parse: {} | check: {:?}", show(ps.parse(s)), { let r = ps.check(s); let n = r.errors().len(); (r.has_output(), n) });
+            $acc.push(($name, a, b));
+        }};
+    }
+    let rest = || any::<&str, E0>().repeated().collect::<String>();
+    let mut acc: Vec<(String, String, String)> = vec![];
+    let ja = just::<_, &str, EC>('a');
+    let hdr = || any::<&str, E0>().rewind();
+    both!(
+        "(&just).configure(seq from ctx) vs just.configure".to_string(),
+        hdr().ignore_with_ctx((&ja).configure(|c, ctx: &char| c.seq(*ctx)).then(any().repeated().collect::<String>())),
+        hdr().ignore_with_ctx(ja.clone().configure(|c, ctx: &char| c.seq(*ctx)).then(any().repeated().collect::<String>())),
+        acc
+    );
+    both!(
+        "(&just).configure(seq from ctx).to_slice() vs just.configure".to_string(),
+        hdr().ignore_with_ctx((&ja).configure(|c, ctx: &char| c.seq(*ctx)).repeated().to_slice().then(any().repeated().collect::<String>())),
+        hdr().ignore_with_ctx(ja.clone().configure(|c, ctx: &char| c.seq(*ctx)).repeated().to_slice().then(any().repeated().collect::<String>())),
+        acc
+    );
+    let ra = just::<_, &str, EP>('a').repeated();
+    both!(
+        "(&repeated).configure(bounds from ctx) vs repeated.configure".to_string(),
+        (&ra).configure(|c, b: &(usize, usize)| c.at_least(b.0).at_most(b.1)).to_slice().with_ctx((1, 2)).then(rest()),
+        ra.clone().configure(|c, b: &(usize, usize)| c.at_least(b.0).at_most(b.1)).to_slice().with_ctx((1, 2)).then(rest()),
+        acc
+    );
+    acc
+}
+
 pub fn decode(tape: &[u32]) -> (G, Vec<char>) {
     let mut t = Tape::new(tape);
     let (g, alpha) = {
@@ -363,6 +514,27 @@ pub fn run(tier: Tier, seed: u64) -> i32 {
                         let mut c = Case::new(ID, "static-iter", &G::Empty, cs);
                         c.extra = serde_json::json!({ "template": name });
                         return Err((c, Fail::new("C15/provider-as-item-source", format!("{}: collected outside the provider: {} -- collected inside: {}", name, outside, inside))));
+                    }
+                }
+            }
+            Ok(())
+        });
+    }
+    // run-time configuration (zero-sized and data-carrying contexts, both setter orders, through references) vs the
+    // statically configured parser, on every short string
+    {
+        let cstrings = all_strings(&['a', 'b'], ctx.pick(6, 8));
+        let chunks: Vec<&[Vec<char>]> = cstrings.chunks(16).collect();
+        ctx.par_jobs(&chunks, |chunk, l| {
+            for cs in chunk.iter() {
+                let s: String = cs.iter().collect();
+                for (name, configured, stat) in cfg_static_family(&s) {
+                    l.evals += 4;
+                    l.bump("configured_vs_static_comparisons");
+                    if configured != stat {
+                        let mut c = Case::new(ID, "static-cfg", &G::Empty, cs);
+                        c.extra = serde_json::json!({ "template": name });
+                        return Err((c, Fail::new("C15/configured-vs-static", format!("{}: configured: {} -- statically configured: {}", name, configured, stat))));
                     }
                 }
             }
